@@ -45,12 +45,12 @@ fn comp_index(c: &str) -> i64 {
 }
 
 fn strip(archs: &[RArch]) -> Vec<RArch> {
-    let on = |c: &Option<String>| c.as_ref().map(|p| const_truth(p)).unwrap_or(true);
+    let on = |c: &Option<String>| cfg_on(c, &const_truth);
     archs.iter().filter(|a| on(&a.cfg)).map(|a| RArch { name: a.name.clone(), id: a.id, cfg: None, comps: a.comps.iter().filter(|c| on(&c.cfg)).map(|c| RComp { name: c.name.clone(), id: c.id, cfg: None }).collect() }).collect()
 }
 
 fn strip_params(params: &[Param]) -> Vec<(usize, Param)> {
-    params.iter().enumerate().filter(|(_, p)| p.cfg.as_ref().map(|c| const_truth(c)).unwrap_or(true)).map(|(i, p)| (i, Param { ty: p.ty.clone(), is_mut: p.is_mut, cfg: None })).collect()
+    params.iter().enumerate().filter(|(_, p)| cfg_on(&p.cfg, &const_truth)).map(|(i, p)| (i, Param { ty: p.ty.clone(), is_mut: p.is_mut, cfg: None })).collect()
 }
 
 /// Is the query compilable and runnable without a borrow conflict? (every matched archetype must bind pairwise
@@ -365,10 +365,15 @@ pub fn emit(thorough: bool, dir: &str, only: Option<&str>, shards: usize) -> ser
             let p_on = pred(used[0]);
             let p_b = pred(used[1]);
             for (qi, c) in comps_enabled.iter().enumerate() {
+                // the typed-entity parameter carries TWO attributes (both orders occur over the cases)
+                let both = match (&p_on, &p_b) {
+                    (Some(a), Some(b)) => Some(if (n16 + qi) % 2 == 0 { format!("{} && {}", a, b) } else { format!("{} && {}", b, a) }),
+                    _ => None,
+                };
                 let mut params = vec![
                     Param { ty: PType::Comp(c.clone()), is_mut: qi % 2 == 0, cfg: if qi % 2 == 0 { None } else { p_on.clone() } },
                     Param { ty: PType::EntityAny, is_mut: false, cfg: p_b.clone() },
-                    Param { ty: PType::Entity(ids.archs[0].0.clone()), is_mut: false, cfg: if qi % 2 == 0 { p_on.clone() } else { p_b.clone() } },
+                    Param { ty: PType::Entity(ids.archs[0].0.clone()), is_mut: false, cfg: if qi % 3 == 0 { both.clone() } else if qi % 2 == 0 { p_on.clone() } else { p_b.clone() } },
                 ];
                 if qi == 1 {
                     params.rotate_left(1);
